@@ -14,10 +14,10 @@ MODP = "instruction::bin_op::verif_contracts::"
 
 
 def k(name, props, kind, descr, tier="quick", domain="", bound="", twins=(), inputs=(), probe=None,
-      nan_ok=False, functions=()):
+      nan_ok=False, functions=(), advisory=False):
     K.append(dict(name=name, harness=MODP + name, props=list(props), kind=kind, descr=descr, tier=tier,
                   domain=domain, bound=bound, twins=list(twins), inputs=list(inputs), probe=probe,
-                  nan_ok=nan_ok, oid="k." + name, functions=list(functions)))
+                  nan_ok=nan_ok, oid="k." + name, functions=list(functions), advisory=advisory))
 
 
 I2 = ("i64", "i64")
@@ -31,15 +31,17 @@ k("c08_add_int", ["C08"], "complete", "a + b == (a + b) mod 2^64 (against 128-bi
 k("c08_subtract_int", ["C08"], "complete", "a - b wraps mod 2^64", domain=ALLI,
   twins=["subtract.exec.int_wrap"], inputs=I2, probe="arith:-", functions=["subtract::exec"])
 k("c08_multiply_int", ["C08"], "complete", "a * b wraps mod 2^64 (against the 128-bit product)", domain=ALLI,
-  twins=["multiply.exec.int_wrap"], inputs=I2, probe="arith:*", tier="thorough", functions=["multiply::exec"])
+  twins=["multiply.exec.int_wrap"], inputs=I2, probe="arith:*", functions=["multiply::exec"])
 k("c08_unary_minus_int", ["C08"], "complete", "-a wraps mod 2^64", domain="all a in i64", inputs=("i64",),
   probe="unary:-", functions=["unary_minus::exec"])
 k("c08_divide_int_cheap", ["C08"], "complete",
   "/ : ZeroDivision iff b == 0, nothing else errs; b=1, b=-1 (incl. MIN/-1 == MIN), a=0, sign rule of truncation",
-  domain=ALLI, inputs=I2, probe="arith:/", functions=["divide::exec"])
+  domain=ALLI, inputs=I2, probe="arith:/", functions=["divide::exec"],
+  twins=["divide.exec.zero_iff_error", "divide.exec.error_kind", "divide.exec.min_by_minus_one"])
 k("c08_modulo_int_cheap", ["C08"], "complete",
   "% : ZeroModulo iff b == 0, nothing else errs; b=+-1 gives 0 (incl. MIN % -1), sign of the dividend",
-  domain=ALLI, inputs=I2, probe="arith:%", functions=["modulo::exec"])
+  domain=ALLI, inputs=I2, probe="arith:%", functions=["modulo::exec"],
+  twins=["modulo.exec.zero_iff_error", "modulo.exec.error_kind", "modulo.exec.min_by_minus_one"])
 k("c08_pow_int_small_exponents", ["C08"], "bounded", "a ** e for e in 0..=2 equals the wrapped product",
   domain="all a in i64", bound="exponent in {0,1,2}", inputs=("i64",), probe="arith:**", functions=["pow::exec"])
 k("c08_pow_negative_exponent", ["C08"], "bounded", "a ** e errs NegativeExponent for e in {-1,-2,MIN}",
@@ -54,11 +56,15 @@ k("c08_lshift", ["C08"], "complete", "<< : Ok(logical shift) iff 0 <= s <= 63 el
 k("c08_rshift", ["C08"], "complete", ">> : Ok(arithmetic shift) iff 0 <= s <= 63 else OverflowShift", domain=ALLI,
   inputs=I2, probe="arith:>>", functions=["rshift::exec"])
 k("c08_bitwise_int", ["C08"], "complete", "& | ^ ! are bitwise on int", domain=ALLI, inputs=I2, probe="bitwise",
+  twins=["xor.exec.int_bitwise", "not.exec.int_bitwise_complement"],
   functions=["bitwise_and::exec", "bitwise_or::exec", "xor::exec", "not::exec"])
 k("c08_bitwise_bool", ["C08"], "complete", "& | ^ ! are the logical operations on bool",
   domain="all (a, b) in bool x bool", inputs=("bool", "bool"), probe="bitwise",
+  twins=["xor.exec.bool_logical", "not.exec.bool_negation"],
   functions=["bitwise_and::exec", "bitwise_or::exec", "xor::exec", "not::exec"])
 k("c08_compare_int", ["C08"], "complete", "> >= < <= are the signed comparisons", domain=ALLI, inputs=I2,
+  twins=["greater.exec.int_signed_comparison", "greater_equal.exec.int_signed_comparison",
+         "lower.exec.int_signed_comparison", "lower_equal.exec.int_signed_comparison"],
   probe="compare", functions=["greater::exec", "greater_equal::exec", "lower::exec", "lower_equal::exec"])
 k("c08_compare_float", ["C08"], "complete", "> >= < <= are the IEEE-754 comparisons (false on NaN)", domain=ALLF,
   inputs=F2, probe="compare", functions=["greater::exec", "greater_equal::exec", "lower::exec", "lower_equal::exec"])
@@ -78,22 +84,28 @@ k("c08_unary_minus_float", ["C08"], "complete", "float unary minus flips the sig
 _FOLD = [("add", "Add"), ("subtract", "Subtract"), ("multiply", "Multiply"), ("bitand", "BitwiseAnd"),
          ("bitor", "BitwiseOr"), ("xor", "Xor"), ("greater", "Greater"), ("greater_equal", "GreaterOrEqual"),
          ("lower", "Lower"), ("lower_equal", "LowerOrEqual")]
+_SHAPE = ("STRUCTURAL (sufficient for the property, not necessary; advisory): a non-constant operand is rebuilt as "
+          "BinOperation with the same operator and the operands in place")
 for _n, _op in _FOLD:
     k(f"c04_fold_{_n}", ["C04", "C08"], "complete",
-      f"create_from_instructions of two int constants == Variable(exec(a, b)); a non-constant operand is rebuilt as "
-      f"BinOperation{{op: {_op}}} with the operands in place", domain=ALLI, inputs=I2, probe="fold",
+      "create_from_instructions of two int constants == Variable(exec(a, b))", domain=ALLI, inputs=I2, probe="fold",
       functions=[f"{_n}::create_from_instructions", "create_from_instructions_with_exec"])
+    k(f"c04_foldshape_{_n}", ["C04", "C08"], "complete", _SHAPE + f" ({_op})", domain=ALLI, inputs=I2, probe="fold",
+      functions=[f"{_n}::create_from_instructions"], advisory=True)
 for _n, _op in (("equal", "Equal"), ("not_equal", "NotEqual")):
-    k(f"c04_fold_{_n}", ["C04", "C19"], "complete",
-      f"folded {_op} of two int constants == exec; non-constant operands rebuilt in place", domain=ALLI, inputs=I2,
+    k(f"c04_fold_{_n}", ["C04", "C19"], "complete", f"folded {_op} of two int constants == exec", domain=ALLI, inputs=I2,
       probe="fold", functions=[f"{_n}::create_from_instructions"])
+    k(f"c04_foldshape_{_n}", ["C04", "C19"], "complete", _SHAPE + f" ({_op})", domain=ALLI, inputs=I2, probe="fold",
+      functions=[f"{_n}::create_from_instructions"], advisory=True)
 for _n, _op, _e in (("divide", "Divide", "zero divisor"), ("modulo", "Modulo", "zero divisor"),
                     ("lshift", "LShift", "shift outside 0..=63"), ("rshift", "RShift", "shift outside 0..=63")):
     k(f"c04_fold_{_n}", ["C04", "C08"], "complete",
       f"folded {_op}: same Ok/Err as exec on constants; an early error only for a constant {_e} "
-      f"(an operation that fails whenever evaluated); otherwise rebuilt with operands in place"
+      f"(an operation that fails whenever evaluated) and then the documented kind"
       + ("" if _n.endswith("shift") else "; quotient VALUE equality is the V obligation, K compares b in {0,1,-1}"),
       domain=ALLI, inputs=I2, probe="fold", functions=[f"{_n}::create_from_instructions"])
+    k(f"c04_foldshape_{_n}", ["C04", "C08"], "complete", _SHAPE + f" ({_op}); the early error is taken whenever allowed",
+      domain=ALLI, inputs=I2, probe="fold", functions=[f"{_n}::create_from_instructions"], advisory=True)
 k("c04_fold_float_ops", ["C04", "C08"], "complete",
   "folded float + - == exec bit-for-bit; a constant float zero divisor is NOT an early error", domain=ALLF,
   inputs=F2, probe="fold", nan_ok=True, functions=["add|subtract|multiply|divide::create_from_instructions"])
